@@ -1122,6 +1122,10 @@ class xfunc_quantile(xfunc):
                     valid = ~missing
                     a = a[valid]
                     w = w[valid]
+            elif numpy.any(numpy.isnan(a)) or numpy.any(numpy.isnan(w)):
+                # Propagate: any missing fact or weight makes the cell missing,
+                # wherever it sorts relative to the requested quantile.
+                return NaN
 
             N = len(w)
             if N == 0:
